@@ -91,6 +91,12 @@ def run(ctx):
             bad.append(("".join(t), None, cls))
     for v in (0, 1, 26, 29, 255, 0x1a, 0x35, 0x36):
         bad.append(("0x%064x%064x%02x" % (sigs[0][0], sigs[0][1], v), None, "bad-v"))
+    NHI, NLO = N >> 128, N & ((1 << 128) - 1)
+    for x in ((NHI << 128) | ((1 << 128) - 1), (((1 << 128) - 1) << 128) | 5, (((1 << 128) - 1) << 128) | (NLO - 1), ((NHI + 1) << 128), (NHI << 128) | NLO):
+        bad.append(("0x%064x%064x1b" % (x, 5), None, "scalar/half-pattern-out-of-range"))
+        bad.append(("0x%064x%064x1c" % (5, x), None, "scalar/half-pattern-out-of-range"))
+    for x in ((NHI << 128) | (NLO - 1), (NHI << 128), ((NHI - 1) << 128) | ((1 << 128) - 1)):
+        bad.append(("0x%064x%064x1b" % (x, x), (x, x, 0), "scalar/half-pattern-in-range"))
     for x in (0, N, N + 1, (1 << 256) - 1):
         bad.append(("0x%064x%064x1b" % (x, 5), None, "scalar/r-out-of-range"))
         bad.append(("0x%064x%064x1c" % (5, x), None, "scalar/s-out-of-range"))
